@@ -399,7 +399,7 @@ def c19(res):
         for p in g["props"]:
             # exactness of eventually verdicts is not part of C19 (their reported paths must still be genuine witnesses):
             # two thirds of the graphs get always / sometimes properties only
-            if p["kind"] == "eventually" and gi_ % 3 != 0:
+            if p["kind"] == "eventually" and gi_ % 3 != 0 and not g["id"].startswith("F3-"):
                 p["kind"] = rng.choice(["always", "sometimes"])
     items = []
     nweb = 0
@@ -455,6 +455,18 @@ def c19(res):
             res.violation("%s" % f, payload)
     mc_graph(res, wd, graphs)
     ondemand_replay(res, rng, q, wd)
+    # run_to_completion on graphs whose frontier exceeds one block (1500 pending states in one worker's queue) and on
+    # deep / wide arithmetic graphs: finishes like BFS (visited set, counts, verdicts)
+    import fam_market
+    bw = workdir("C19big-%s" % res.tier)
+    big = [dict(id="F4-bush-%d" % n_, family="chainbush", n=n_, init=[1], succ=[], inb=[], params=[k_], poison=0, rep=[], props=[])
+           for (n_, k_) in ([(4000, 1), (5200, 30)] if q else [(4000, 1), (5200, 30), (9000, 2), (12000, 300)])]
+    big += [g for g in fam_market.f4_graphs(rng, q) if g["family"] in ("tree", "grid")][: (2 if q else 4)]
+    for g in big:
+        g["props"] = fam_market.big_props(rng)
+    fam_market.checker_runs(res, "C19", big, lambda i, g: [gg.base_cfg("ondemand", t, light=True, watchdog_ms=60000) for t in ((1, 2) if q else (1, 2, 4))],
+                            ["joined", "edges", "subset", "once", "complete", "verdicts"], bw, "c19big")
+    shutil.rmtree(bw, ignore_errors=True)
     res.traces += len(recs)
     res.evaluations += nq
     res.nontrivial += nq
@@ -664,4 +676,48 @@ def example_single_copy(res, clients=(2,)):
     res.notes.append("examples/single-copy-register.rs vs SingleCopy.tla: " + "; ".join(
         "%d clients: stateright unique=%d states=%d, TLC distinct=%d" % (x["n"], x["unique"], x["states"], x["tlc_distinct"]) for x in recs)
         + "; with two servers TLC finds the linearizability violation the example documents")
+    shutil.rmtree(wd, ignore_errors=True)
+
+
+def example_abd(res):
+    """Abd.tla (the ABD quorum register of examples/linearizable-register.rs: servers, register clients, the recorded
+    linearizability-tester state and the non-duplicating network as a spec) vs the real example: the CLI run (3 servers,
+    1 client) must report TLC's distinct-state count, and the example's own tests (2 servers, 2 clients, BFS and DFS,
+    which assert 544 states and linearizability) must pass while TLC finds 544 states on the same configuration."""
+    import subprocess, re
+    wd = workdir("exabd-%s" % res.pid)
+    env = dict(os.environ, CARGO_NET_OFFLINE="true")
+    r31 = run_tlc("Abd.tla", "cfg/Abd_3_1.cfg", workers=8, timeout=3000, heap="10g", name="abd-3-1")
+    res.add_tlc(r31, "Abd[3 servers, 1 client]")
+    r22 = run_tlc("Abd.tla", "cfg/Abd_2_2.cfg", workers=8, timeout=3000, heap="10g", name="abd-2-2")
+    res.add_tlc(r22, "Abd[2 servers, 2 clients]")
+    for r in (r31, r22):
+        if not r["ok"]:
+            raise ToolError("Abd.tla: %s violated on the SPEC" % r["violated"])
+    p = subprocess.run(["cargo", "run", "--offline", "--release", "--example", "linearizable-register", "--", "check", "1", "unordered_nonduplicating"],
+                       cwd="/repo", env=env, stdout=subprocess.PIPE, stderr=subprocess.STDOUT, text=True, timeout=3000)
+    m = re.search(r"Done\. states=(\d+), unique=(\d+)", p.stdout)
+    if not m:
+        raise ToolError("examples/linearizable-register did not report a result:\n" + p.stdout[-1500:])
+    recs = [dict(n=1, symmetry=False, states=int(m.group(1)), unique=int(m.group(2)), tlc_distinct=r31["distinct"], tlc_orbits=0,
+                 found_commit=True, found_abort='Discovered "value chosen"' in p.stdout, found_inconsistent='Discovered "linearizable"' in p.stdout)]
+    t = subprocess.run(["cargo", "test", "--offline", "--release", "--example", "linearizable-register"],
+                       cwd="/repo", env=env, stdout=subprocess.PIPE, stderr=subprocess.STDOUT, text=True, timeout=3000)
+    mt = re.search(r"test result: (\w+)\. (\d+) passed; (\d+) failed", t.stdout)
+    if not mt:
+        raise ToolError("the tests of examples/linearizable-register did not run:\n" + t.stdout[-1500:])
+    # the example's own tests assert unique_state_count() == 544 for 2 servers / 2 clients (BFS and DFS)
+    own_ok = mt.group(1) == "ok" and int(mt.group(2)) >= 1 and "can_model_linearizable_register ... ok" in t.stdout
+    recs.append(dict(n=2, symmetry=False, states=544 if own_ok else 0, unique=544 if own_ok else 0, tlc_distinct=r22["distinct"], tlc_orbits=0,
+                     found_commit=True, found_abort=True, found_inconsistent=not own_ok))
+    rp, op = os.path.join(wd, "ex.ndjson"), os.path.join(wd, "ex.json")
+    write_ndjson(rp, recs)
+    run_tlc("JudgeExamples.tla", "cfg/empty.cfg", env=dict(RECS=rp, OUT=op), timeout=300, name="jexabd")
+    o = json.load(open(op))
+    for i in o["bad"]:
+        res.violation("example_abd", dict(check="example_abd", record=recs[i - 1], test_output=t.stdout[-800:]))
+    res.traces += len(recs)
+    res.notes.append("examples/linearizable-register.rs vs Abd.tla: 3 servers / 1 client: stateright unique=%d states=%d, TLC distinct=%d generated=%d; "
+                     "2 servers / 2 clients: the example's own tests (assert 544, BFS and DFS) %s, TLC distinct=%d" % (
+                         recs[0]["unique"], recs[0]["states"], r31["distinct"], r31["generated"], "pass" if own_ok else "FAIL", r22["distinct"]))
     shutil.rmtree(wd, ignore_errors=True)
